@@ -73,10 +73,15 @@ pub fn gen_own_case_min(rng: &mut Rng, thorough: bool, index: u64, sentinels: bo
         _ => Value::Null,
     };
     let alg = if index % 50 == 49 { keys::alg_name(&keys::ALL_ALGS[(index / 50) as usize % 13]) } else { "HS256" };
-    json!({
+    let mut case = json!({
         "issuer": "own", "tree": tree.to_wire(), "order": order, "decoy": decoy,
         "kb": rng.chance(kb_pct, 100), "exp": rng.chance(1, 4), "alg": alg,
-    })
+    });
+    // explicit in the case (a function of the tree as generated), so that a reduced case replays the same way
+    let wire = case["tree"].clone();
+    case["reissue"] = json!([0u64, 0, 0, 1, 2][(crate::report::hash_of(&wire) % 5) as usize]);
+    case["pre_cnf"] = match derive_pre_cnf(&case) { Some(v) => json!({"v": v}), None => json!({"none": true}) };
+    case
 }
 
 pub fn gen_ref_case(rng: &mut Rng, thorough: bool, kb_pct: u32) -> Value {
@@ -97,6 +102,14 @@ pub fn gen_ref_case(rng: &mut Rng, thorough: bool, kb_pct: u32) -> Value {
         "sd_alg": *rng.pick(&["sha-256", "sha-384", "sha-512"]),
         "kb": rng.chance(kb_pct, 100), "alg": "HS256",
     })
+}
+
+/// one bound case in four starts from claims that already carry a top-level `cnf`
+pub fn derive_pre_cnf(case: &Value) -> Option<Value> {
+    match crate::report::hash_of(&json!([case["order"], case["decoy"], case["alg"]])) % 16 {
+        0 => Some(Value::Null), 1 => Some(json!({})), 2 => Some(json!("none")),
+        3 => Some(json!({"kty":"RSA","n":"AQAB","e":"AQAB"})), _ => None,
+    }
 }
 
 /// issue with the real issuer; `None` (and a recorded difference) when issuing fails
@@ -124,11 +137,9 @@ pub fn issue_own(ctx: &mut Ctx, case: &Value, entry_prop: &str) -> Option<Issued
     // object, a string, another key): require_key_binding must still decide the bound key
     let pre_cnf: Option<Value> = if kb && !paths.iter().any(|p| p == "/cnf" || p.starts_with("/cnf/")) {
         match case.get("pre_cnf") {
-            Some(v) => Some(v.clone()),
-            None => match crate::report::hash_of(&case["order"]) % 16 {
-                0 => Some(Value::Null), 1 => Some(json!({})), 2 => Some(json!("none")),
-                3 => Some(json!({"kty":"RSA","n":"AQAB","e":"AQAB"})), _ => None,
-            },
+            Some(v) if v.get("v").is_some() => Some(v["v"].clone()),
+            Some(v) if v.get("none").is_some() => None,
+            _ => derive_pre_cnf(case),
         }
     } else { None };
     let mut claims_in = claims.clone();
